@@ -62,6 +62,7 @@ fn start_node(
     port: u16,
     dynamic_inbound_limit: usize,
     static_inbound: HashSet<node::PublicKey>,
+    static_outbound: HashMap<node::PublicKey, net::Host>,
 ) -> (Arc<Mutex<Option<Arc<network::Network>>>>, oneshot::Sender<()>, tokio::task::JoinHandle<()>) {
     net.0.lock().unwrap().actors.insert(tag, name.to_string());
     let store = Arc::new(Mutex::new(NodeStore::new(w.committee.genesis.first_block, true)));
@@ -74,7 +75,7 @@ fn start_node(
             key: w.node_keys[nidx].clone(),
             dynamic_inbound_limit,
             static_inbound,
-            static_outbound: HashMap::new(),
+            static_outbound,
         },
         validator_key: Some(w.committee.keys[vidx].clone()),
         max_block_size: 100_000,
@@ -205,12 +206,19 @@ pub async fn run(seed: u64, sched: Rc<Sched>, keep_log: bool) -> (CaseResult, Ve
     let genesis = w.committee.genesis.hash();
     let other_genesis: validator::GenesisHash = rng.gen();
     let (av, a1, aadv) = (addr(3000), addr(3001), addr(3999));
-    let strategy = rng.gen_range(0..17u32);
+    let strategy = rng.gen_range(0..18u32);
     let needs_h1 = matches!(strategy, 2 | 7 | 9 | 10);
     let dyn_limit = rng.gen_range(0..3usize);
     let static_in: HashSet<node::PublicKey> = if rng.gen_bool(0.5) { [w.node_keys[1].public()].into() } else { HashSet::new() };
-    let (victim_slot, kill_v, hv) = start_node(&w, &hub, &clock, &sched, &net, 1, "victim", 0, 0, 3000, dyn_limit, static_in.clone());
-    let h1 = if needs_h1 { Some(start_node(&w, &hub, &clock, &sched, &net, 2, "h1", 1, 1, 3001, 5, HashSet::new())) } else { None };
+    // GO (strategy 17): the victim has two configured outbound gossip peers, N1 at the address the
+    // adversary listens on and NB (the adversary's own node identity) elsewhere.
+    let static_out: HashMap<node::PublicKey, net::Host> = if strategy == 17 {
+        [(w.node_keys[1].public(), net::Host(aadv.to_string())), (w.node_keys[2].public(), net::Host(addr(3998).to_string()))].into()
+    } else {
+        HashMap::new()
+    };
+    let (victim_slot, kill_v, hv) = start_node(&w, &hub, &clock, &sched, &net, 1, "victim", 0, 0, 3000, dyn_limit, static_in.clone(), static_out);
+    let h1 = if needs_h1 { Some(start_node(&w, &hub, &clock, &sched, &net, 2, "h1", 1, 1, 3001, 5, HashSet::new(), HashMap::new())) } else { None };
     hist.note(format!("strategy {strategy}, h1={needs_h1}, dynamic_inbound_limit={dyn_limit}, static_inbound={}", static_in.len()));
     // Which secrets does each actor hold (by public key text)?
     let pk = |k: &validator::SecretKey| format!("{:?}", k.public());
@@ -514,6 +522,20 @@ pub async fn run(seed: u64, sched: Rc<Sched>, keep_log: bool) -> (CaseResult, Ve
                 }
                 drop(l);
                 net2.0.lock().unwrap().hijack.remove(&av);
+            }
+            // GO: the victim dials its configured gossip peer N1 and reaches the adversary, which
+            // answers with a genuine handshake of *another* configured peer (NB, whose key it holds).
+            17 => {
+                let Ok(mut l) = net2.listen_as(aadv, "adv") else { return };
+                for k in 0..2 {
+                    let Some(tcp) = async { Some(ctx.wait(l.accept()).await.ok()?.ok()?.0) }.await else { break };
+                    let Some((mut s, _ep)) = preface_accept(ctx, tcp).await else { continue };
+                    let sid = session_id(&s);
+                    let theirs = recv_frame(&mut s).await;
+                    send_frame(&mut s, &gossip_handshake(&nb.sign_msg(sid), &genesis, true)).await;
+                    note(format!("GO session {k}: victim's handshake received: {}", theirs.is_some()));
+                    keep.push(s);
+                }
             }
             // G: gossip endpoint. Several identities dial: outsiders (quota), a forged static peer.
             _ => {
